@@ -111,14 +111,14 @@ impl ESub {
                             from_versions: match from_versions {
                                 Some(FromVersionsArg::Latest) | None => FromVersions::Latest,
                                 Some(FromVersionsArg::Streams(from_versions)) => {
+                                    // A stream id can be listed under several partition keys;
+                                    // `<stream>=<ver>` then applies to each of them.
                                     FromVersions::Streams(
-                                        from_versions
-                                            .into_iter()
-                                            .filter_map(|(stream_id, version)| {
-                                                let (partition_key, _) = stream_ids
-                                                    .iter()
-                                                    .find(|(_, sid)| sid == &stream_id)?;
-                                                Some(((*partition_key, stream_id), version))
+                                        stream_ids
+                                            .iter()
+                                            .filter_map(|(partition_key, stream_id)| {
+                                                let version = from_versions.get(stream_id)?;
+                                                Some(((*partition_key, stream_id.clone()), *version))
                                             })
                                             .collect(),
                                     )
